@@ -303,7 +303,7 @@ func loopStateProgram(r *rand.Rand) *gen.Program {
 		}},
 		gen.FuncDef{Name: "chars", Ret: gen.TNone, Params: []gen.Param{{Name: "s", T: tStr}}, Body: []gen.Stmt{
 			gen.For{Var: "ch", VarT: tStr, Over: vr("s", tStr), Body: []gen.Stmt{
-				printCall(sl("chars"), vr("ch", tStr)),
+				printCall(sl("chars"), vr("ch", tStr), gen.Index{X: vr("ch", tStr), I: nl(0), T: tStr}, gen.Slice{X: vr("ch", tStr), Hi: nl(1)}, call("len", tNum, toAny(vr("ch", tStr)))),
 				gen.If{Conds: []gen.Expr{bin(">", call("len", tNum, toAny(vr("s", tStr))), nl(1), tBool)}, Blocks: [][]gen.Stmt{{gen.CallStmt{C: call("chars", gen.TNone, gen.Slice{X: vr("s", tStr), Lo: nl(1)})}}}},
 			}},
 		}},
